@@ -24,7 +24,8 @@ struct ctl_sink : sim::sink
 };
 
 struct plan { std::int64_t bytes = 0; std::vector<int> sizes{1000}; int nbufs = 1; std::string start = "connected"; };
-struct rplan { std::string style = "read"; std::vector<int> caps{4096}; bool stop = false; };
+// twice = k > 0: every k-th read is issued twice in a row, the second superseding the first (C04)
+struct rplan { std::string style = "read"; std::vector<int> caps{4096}; bool stop = false; int twice = 0; };
 
 struct side
 {
@@ -291,12 +292,15 @@ struct tcp_run
 	}
 
 	void on_read(side& s, std::int64_t h, error_code const& ec, std::size_t n, char const* evname, int cap)
+	{ on_read(s, h, ec, n, evname, cap, s.rbufs); }
+	void on_read(side& s, std::int64_t h, error_code const& ec, std::size_t n, char const* evname, int cap
+		, std::vector<std::vector<char>> const& rbufs)
 	{
 		std::int64_t t = rec.sync();
 		json::object e; e["e"] = evname; e["s"] = s.name; e["conn"] = s.conn; e["role"] = s.role; e["h"] = h;
 		e["ec"] = ec_name(ec); e["n"] = std::int64_t(n); e["inline"] = in_api; e["t"] = t; e["cap"] = cap; e["stale"] = false;
 		std::vector<std::uint8_t> got;
-		for (auto const& b : s.rbufs) for (char c : b) if (got.size() < n) got.push_back(std::uint8_t(c));
+		for (auto const& b : rbufs) for (char c : b) if (got.size() < n) got.push_back(std::uint8_t(c));
 		int sid = -1; std::int64_t off = -1;
 		if (!ec && n > 0) locate(got, s, sid, off);
 		e["sid"] = sid; e["off"] = off;
@@ -309,6 +313,35 @@ struct tcp_run
 	{
 		if (!s.sock || s.reading || s.closed || s.eof || !s.connected || s.r.stop) return;
 		int cap = s.r.caps[s.ri++ % s.r.caps.size()];
+		if (s.r.twice > 0 && s.ri % s.r.twice == 0)
+		{
+			// a first operation of the same kind, superseded at once by the one below: its handler must run exactly
+			// once - with operation_aborted, or with what it had already completed with when it was superseded
+			std::int64_t h1 = next_h++;
+			std::int64_t t1 = rec.sync();
+			{ json::object e; e["e"] = "Read"; e["s"] = s.name; e["conn"] = s.conn; e["role"] = s.role; e["h"] = h1; e["style"] = s.r.style; e["cap"] = cap; e["t"] = t1; rec.emit(e); }
+			std::string name1 = s.name; int gen1 = s.gen;
+			in_api = true;
+			if (s.r.style == "read")
+			{
+				auto db = std::make_shared<std::vector<std::vector<char>>>();
+				db->emplace_back(std::size_t(cap));
+				s.sock->async_read_some(asio::mutable_buffer((*db)[0].data(), (*db)[0].size()), [this, name1, h1, gen1, cap, db](error_code const& ec, std::size_t n) {
+					side& sd = sides[name1];
+					if (gen1 != sd.gen) { json::object e; e["e"] = "ReadDone"; e["s"] = name1; e["conn"] = sd.conn; e["role"] = sd.role; e["h"] = h1; e["ec"] = ec_name(ec); e["n"] = std::int64_t(n); e["inline"] = in_api; e["t"] = rec.sync(); e["stale"] = true; e["sid"] = -1; e["off"] = -1; e["cap"] = cap; rec.emit(e); return; }
+					on_read(sd, h1, ec, n, "ReadDone", cap, *db);
+					if (ec == boost::asio::error::eof) sd.eof = true;
+				});
+			}
+			else
+			{
+				s.sock->async_wait(tcp::socket::wait_read, [this, name1, h1, gen1](error_code const& ec) {
+					side& sd = sides[name1];
+					json::object e; e["e"] = "Ready"; e["s"] = name1; e["conn"] = sd.conn; e["role"] = sd.role; e["h"] = h1; e["ec"] = ec_name(ec); e["inline"] = in_api; e["t"] = rec.sync(); e["stale"] = gen1 != sd.gen; rec.emit(e);
+				});
+			}
+			in_api = false;
+		}
 		std::int64_t h = next_h++;
 		std::int64_t t = rec.sync();
 		{ json::object e; e["e"] = "Read"; e["s"] = s.name; e["conn"] = s.conn; e["role"] = s.role; e["h"] = h; e["style"] = s.r.style; e["cap"] = cap; e["t"] = t; rec.emit(e); }
@@ -504,6 +537,7 @@ struct tcp_run
 		p.style = gets(o, "style", "read");
 		if (o.find("caps") != o.end()) { p.caps.clear(); for (auto const& v : o.at("caps").as_array()) p.caps.push_back(int(v.as_int64())); }
 		p.stop = getb(o, "stop");
+		p.twice = int(geti(o, "twice", 0));
 		return p;
 	}
 
